@@ -299,11 +299,164 @@ fn part_b(tier: Tier, report: &mut Report) {
     report.set("sentences", n);
 }
 
+/// (c) every language id the server dispatches on, through the REAL server: didOpen with that
+/// languageId -> published diagnostics == reference (the harness's own replica of the front-end
+/// composition + reference position model); a codeAction request at every diagnostic -> that
+/// lint's ignore command and every suggestion as a TextEdit that a reference client applies.
+fn part_c(tier: Tier, report: &mut Report) {
+    use crate::e3::{Server, World};
+    use crate::frontends::{Class, FrontEnd, LANG_IDS, Maker};
+    crate::e3::sandbox_env();
+    // (language id sent by the editor, the harness front-end that models it, class for embedding)
+    let mut table: Vec<(&'static str, &'static str, Class)> = LANG_IDS.iter().map(|l| (*l, *l, Class::Comment)).collect();
+    for (id, model, class) in [
+        ("lhaskell", "lhaskell", Class::Lhs),
+        ("literate haskell", "lhaskell", Class::Lhs),
+        ("markdown", "markdown", Class::Markdown),
+        ("git-commit", "gitcommit", Class::GitCommit),
+        ("gitcommit", "gitcommit", Class::GitCommit),
+        ("html", "html", Class::Html),
+        ("mail", "plaintext", Class::Plain),
+        ("plaintext", "plaintext", Class::Plain),
+        ("text", "plaintext", Class::Plain),
+        ("typst", "typst", Class::Typst),
+    ] {
+        table.push((id, model, class));
+    }
+    let proses: Vec<&str> = tier.pick(
+        vec!["This is an tset of teh thing.", "Ünï 😀 teh tset.\nSecond line an apple 😀 an orange."],
+        vec!["This is an tset of teh thing.", "Ünï 😀 teh tset.\nSecond line an apple 😀 an orange.", "There is an  problem with 😀😀 teh teh thing", "He is better then me.\r\nAn other tset."],
+    );
+    let curated = FstDictionary::curated();
+    let n = table.len() as u64;
+    let res = par_chunks(n, 2, ncpu(), |s, e| {
+        let mut viols: Vec<Violation> = vec![];
+        let mut evals = 0u64;
+        let mut nontrivial = 0u64;
+        let mut edits = 0u64;
+        for ti in s..e {
+            let (lang_id, model, class) = table[ti as usize];
+            let fe = FrontEnd { name: format!("ls:{model}"), class, lang: if class == Class::Comment { Some(model) } else { None }, maker: Maker::Ls { lang: model, isolate: false } };
+            for prose in &proses {
+                for with_code in [false, true] {
+                    let mut text = fe.embed(prose);
+                    if with_code {
+                        // non-prose material that only the right parser for this language id skips
+                        text = match class {
+                            Class::Comment => format!("{text}\nx = 1\n{}", fe.embed("Anothr one 😀 hre.")),
+                            Class::Html => format!("<div class=\"wrng-clss\"><p>{prose}</p><!-- cmment txt --><code>cde hre</code></div>"),
+                            Class::Markdown => format!("`cde spn` {prose} [lnk txt](http://exmple.com/pth)\n\n```\nfncd blck\n```\n"),
+                            Class::Typst => format!("#let x = \"strng vlue\"\n{prose} $mth + xpr$"),
+                            Class::Lhs => format!("> cde = wrng\n\n{prose}\n\n\\begin{{code}}\nmre = cde\n\\end{{code}}\n"),
+                            Class::GitCommit => format!("{prose}\n\n# Plese enter the commit mesage for your chnges.\n"),
+                            Class::Plain => continue,
+                        };
+                    }
+                    evals += 1;
+                    let case = json!({"engine":"E3","object":"harper-ls","languageId": lang_id, "text": text});
+                    let chars = s2c(&text);
+                    let r = catch(|| -> Result<Option<(String, Value)>, String> {
+                        // reference
+                        let (parser, dict) = fe.prepare(&chars, &curated);
+                        let doc = Document::new(&text, &parser, &dict);
+                        let mut g = LintGroup::new_curated(dict.clone(), Dialect::American);
+                        g.config.fill_with_curated();
+                        let lints: Vec<Lint> = g.lint(&doc);
+                        let mut want: Vec<Value> = lints.iter().map(|l| {
+                            let (a, b) = (ref_position(&chars, l.span.start), ref_position(&chars, l.span.end));
+                            json!({"range": {"start": {"line": a.0, "character": a.1}, "end": {"line": b.0, "character": b.1}}, "message": l.message})
+                        }).collect();
+                        want.sort_by_key(|x| x.to_string());
+                        // the real server
+                        let world = World::new("c08");
+                        let settings = world.settings(json!({}), "American");
+                        let mut server = Server::new(world.config(), settings);
+                        server.boot()?;
+                        let uri = world.uri("doc.src");
+                        let req = Server::notification("textDocument/didOpen", json!({"textDocument": {"uri": uri, "languageId": lang_id, "version": 1, "text": text}}));
+                        server.enqueue("open", req);
+                        server.run_default()?;
+                        let got = server.last_diagnostics(&uri).map(|v| crate::c09::norm_diag(&v)).unwrap_or_default();
+                        if got != want {
+                            world.cleanup();
+                            return Ok(Some(("server:published-diagnostics-differ-from-reference".into(), json!({"published": got, "reference": want}))));
+                        }
+                        // code actions at the start of every diagnostic
+                        for l in &lints {
+                            let a = ref_position(&chars, l.span.start);
+                            let b = ref_position(&chars, l.span.end);
+                            let req = server.request("textDocument/codeAction", json!({"textDocument": {"uri": uri}, "range": {"start": {"line": a.0, "character": a.1}, "end": {"line": a.0, "character": a.1}}, "context": {"diagnostics": []}}));
+                            server.enqueue("codeAction", req);
+                            server.run_default()?;
+                            let resp = server.tasks.last().and_then(|t| t.response.clone());
+                            let val = resp.and_then(|r| r.into_parts().1.ok()).unwrap_or(Value::Null);
+                            let acts: Vec<CodeActionOrCommand> = serde_json::from_value(val.clone()).unwrap_or_default();
+                            let offered = acts.iter().any(|x| matches!(x, CodeActionOrCommand::Command(c) if c.command == "HarperIgnoreLint" && c.arguments.as_ref().and_then(|v| v.get(1)).and_then(|v| serde_json::from_value::<Lint>(v.clone()).ok()).as_ref() == Some(l)));
+                            if !offered {
+                                world.cleanup();
+                                return Ok(Some(("server:code-action-for-the-lint-not-offered".into(), json!({"position": [a.0, a.1], "lint": crate::sweep::lint_json(l), "response": val.to_string().chars().take(400).collect::<String>()}))));
+                            }
+                            for sg in &l.suggestions {
+                                let title = sg.to_string();
+                                let te = acts.iter().find_map(|x| match x {
+                                    CodeActionOrCommand::CodeAction(ca) if ca.title == title => ca.edit.as_ref().and_then(|w| w.changes.as_ref()).and_then(|m| m.values().next()).and_then(|v| v.first()).filter(|te| (te.range.start.line, te.range.start.character, te.range.end.line, te.range.end.character) == (a.0, a.1, b.0, b.1)).cloned(),
+                                    _ => None,
+                                });
+                                let Some(te) = te else {
+                                    world.cleanup();
+                                    return Ok(Some(("server:suggestion-missing-from-code-actions".into(), json!({"suggestion": title, "position": [a.0, a.1]}))));
+                                };
+                                edits += 1;
+                                let by_client = ref_apply_edit(&chars, &te.range, &te.new_text);
+                                let mut by_core = chars.clone();
+                                sg.apply(l.span, &mut by_core);
+                                if by_client != by_core {
+                                    world.cleanup();
+                                    return Ok(Some(("server:text-edit-differs-from-suggestion".into(), json!({"suggestion": title, "client_result": c2s(&by_client), "core_result": c2s(&by_core)}))));
+                                }
+                            }
+                        }
+                        world.cleanup();
+                        Ok(if lints.is_empty() { None } else { Some(("nontrivial".into(), Value::Null)) })
+                    });
+                    match r {
+                        Ok(Ok(None)) => {}
+                        Ok(Ok(Some((sig, _)))) if sig == "nontrivial" => nontrivial += 1,
+                        Ok(Ok(Some((sig, detail)))) => {
+                            if viols.len() < 6 {
+                                viols.push(Violation { sig, case, detail });
+                            }
+                        }
+                        Ok(Err(e)) => viols.push(Violation { sig: format!("machinery: {e}"), case, detail: json!({}) }),
+                        Err(pn) => viols.push(Violation { sig: "server:panic".into(), case, detail: json!({"msg": pn.msg}) }),
+                    }
+                }
+            }
+        }
+        (evals, nontrivial, edits, viols)
+    });
+    for (e, nt, ed, vs) in res {
+        report.add("evaluations", e);
+        report.add("server_documents", e);
+        report.add("distinct_nontrivial", nt);
+        report.add("text_edits_applied", ed);
+        for v in vs {
+            if v.sig.starts_with("machinery") {
+                report.machinery(v.sig);
+            } else {
+                report.violation(v);
+            }
+        }
+    }
+    report.set("server_language_ids", n);
+}
+
 pub fn run(tier: Tier) -> i32 {
     let mut report = Report::new("C08", tier, "exploration");
     report.set("rule", "(a) every text over {a, é, 😀, tab, LF, CRLF, combining sequence} up to a length bound x every span: span_to_range against a reference LSP position model and the range_to_span round trip; (b) harvested sentences placed on the first / a middle / the last line, LF and CRLF, with and without trailing newline, behind astral characters, as plaintext and Markdown through the real DocumentState: every diagnostic's range, code actions requested at every character position inside the range, every returned TextEdit applied by a reference client against Suggestion::apply. Non-trivial = document with at least one diagnostic");
     part_a(tier, &mut report);
     part_b(tier, &mut report);
+    part_c(tier, &mut report);
     report.outcomes.insert(1);
     report.outcomes.insert(2);
     report.sample(json!({"engine":"E1","text":"😀 é first line.\r\nThere is an  problem with 😀😀 teh teh thing","language":"markdown"}));
